@@ -95,14 +95,20 @@ class Doc:
         """script = [(kind, line, text)] in original 1-based line coordinates, applied simultaneously."""
         before = {}
         inplace = {}
+        lead = {}
         for kind, at, payload in script:
             if kind in ("blank", "spaces", "comment"):
                 before.setdefault(at, []).append(payload)
+            elif kind == "lead":  # a comment in front of the code of the line (behind its indentation)
+                lead[at] = lead.get(at, "") + payload.strip() + " "
             else:
                 inplace[at] = inplace.get(at, "") + payload
         out = []
         for L, ln in enumerate(self.lines, 1):
             out.extend(before.get(L, []))
+            if L in lead:
+                ind = len(ln) - len(ln.lstrip())
+                ln = ln[:ind] + lead[L] + ln[ind:]
             out.append(ln + inplace.get(L, ""))
         out.extend(before.get(len(self.lines) + 1, []))
         return "\n".join(out) + ("\n" if self.trailing_nl or before.get(len(self.lines) + 1) else "")
@@ -124,10 +130,13 @@ def payload_for(lang, kind, style_idx, indent="", salt=0):
         return ""
     if kind == "spaces":
         return SPACE_LINES[v % len(SPACE_LINES)]
-    if kind == "comment":
+    if kind == "comment" and v % 7 != 3:
         return indent + st[v % len(st)]
     if kind == "trail_comment":
-        return "  " + st[v % len(st)]
+        # now and then far to the right (aligned comment columns, a banner): where a comment starts says nothing about the code
+        return ("  " if v % 5 else " " * 1100) + st[v % len(st)]
+    if kind == "comment" and v % 7 == 3:
+        return " " * 1100 + st[v % len(st)]
     if kind == "trail_ws":
         return TRAIL_WS[v % len(TRAIL_WS)]
     raise ValueError(kind)
